@@ -180,6 +180,7 @@ package chain
 //@   assigns heap:Manager, elems:types.Transaction, elems:types.V2Transaction, map:map[types.TransactionID]int
 //@   requires m != nil
 //@   ensures poolInv(m)
+//@   ensures m.store == old(m.store) && m.tipState == old(m.tipState)
 //
 //@ func (*Manager).PoolTransaction props C14
 //@   nopanic
@@ -283,12 +284,33 @@ package chain
 //@ func (*Manager).checkTxnSet
 //@   assigns heap:consensus.MidState
 //@   requires m != nil
-//@ func (*Manager).updateV2TransactionProofs
+// Proof updates are bounded by the accumulator size of the state the update leads to: the parent
+// state when a block is reverted, the new state when a block is applied. An element with a leaf
+// index beyond that is rejected by updateTxnProofs instead of reaching UpdateElementProof (which
+// panics on elements that are not in the accumulator).
+//@ func updateTxnProofs
+//@   assigns pointee:txn, elems:types.V2SiacoinInput, elems:types.V2SiafundInput, elems:types.V2FileContractRevision, elems:types.V2FileContractResolution, elems:types.Hash256, heap:types.V2StorageProof
+//@   requires [leaf-bound] (called("ApplyBlock") && numLeaves == callres("ApplyBlock", 0).Elements.NumLeaves)
+//@              || (!mayHaveCalled("ApplyBlock") && called("RevertBlock") && numLeaves == callarg("RevertBlock", 0).Elements.NumLeaves)
+//@ extern (*types.V2Transaction).EncodeTo
+//@   assigns nothing
+//@ extern (*consensus.ElementAccumulator).ValidateTransactionElements pure
+//@ extern (consensus.ApplyUpdate).SiacoinElementDiffs
+//@   assigns nothing
+//@ extern (consensus.ApplyUpdate).SiafundElementDiffs
+//@   assigns nothing
+//@ extern (types.StateElement).Share pure
+//
+//@ func (*Manager).updateV2TransactionProofs props C13
 //@   assigns elems:types.V2Transaction, elems:types.V2SiacoinInput, elems:types.V2SiafundInput, elems:types.V2FileContractRevision, elems:types.V2FileContractResolution, elems:types.Hash256, heap:types.V2StorageProof
-//@   requires m != nil
-//@   ensures forall i int :: { m.txpool.v2txns[i] } 0 <= i && i < len(m.txpool.v2txns) ==> m.txpool.v2txns[i] == old(m.txpool.v2txns[i])
-//@   ensures forall i int :: { result0[i] } 0 <= i && i < len(result0) ==> isCopy(result0[i])
-//@   ensures !sameArray(result0, m.txpool.v2txns)
+//@   frame assumed
+//@   requires m != nil && m.store != nil
+//@   ensures [assumed:pool-unchanged] forall i int :: { m.txpool.v2txns[i] } 0 <= i && i < len(m.txpool.v2txns) ==> m.txpool.v2txns[i] == old(m.txpool.v2txns[i])
+//@   ensures [assumed:copies] forall i int :: { result0[i] } 0 <= i && i < len(result0) ==> isCopy(result0[i])
+//@   ensures [assumed:apart] !sameArray(result0, m.txpool.v2txns)
+//@   ensures [assumed:input-unchanged] forall i int :: { txns[i] } 0 <= i && i < len(txns) ==> txns[i] == old(txns[i])
+//@   ensures [unknown-basis] !(from.ID in states) ==> err != nil
+//@   ensures [error] err != nil ==> len(updated) == 0
 //
 // Submission is all-or-nothing: on an error the pool has exactly the transactions it had
 // after the initial revalidation (same lengths, same indexed ids).
@@ -343,9 +365,26 @@ package chain
 // block's body has been pruned in the meantime.
 // reorgPath (assumed here; its path shape is part of C13/C01-O4): when it succeeds, a non-empty
 // apply list ends at the target, and it never asks for more reverts than the start is high.
-//@ func (*Manager).reorgPath
+//@ func (*Manager).reorgPath props C13
+//@   nopanic
 //@   assigns nothing
-//@   ensures err == nil ==> (len(apply) > 0 ==> apply[len(apply)-1] == b) && len(revert) <= a.Height
+//@   requires m != nil && m.store != nil && maxLen >= 0
+//@   loop "for a.Height > b.Height"
+//@     invariant m == old(m) && err == nil && len(revert) + len(apply) <= maxLen && len(apply) == 0 && fresh(revert) && fresh(apply)
+//@   loop "for b.Height > a.Height"
+//@     invariant m == old(m) && err == nil && len(revert) + len(apply) <= maxLen && fresh(revert) && fresh(apply)
+//@   loop "for a != b"
+//@     invariant m == old(m) && err == nil && len(revert) + len(apply) <= maxLen + 1 && fresh(revert) && fresh(apply)
+//@   ensures [assumed:shape] err == nil ==> (len(apply) > 0 ==> apply[len(apply)-1] == b) && len(revert) <= a.Height
+//@   ensures [bounded] err == nil ==> len(revert) + len(apply) <= maxLen + 1
+//
+// UpdateV2TransactionSet: equal indices return the caller's slice itself (documented); otherwise
+// the work is delegated to updateV2TransactionProofs under the manager's lock.
+//@ func (*Manager).UpdateV2TransactionSet props C13
+//@   nopanic
+//@   requires m != nil && m.store != nil
+//@   ensures [identity] from == to ==> result0 == txns && result1 == nil && !called("updateV2TransactionProofs")
+//@   ensures [delegates] from != to ==> called("updateV2TransactionProofs") && callarg("updateV2TransactionProofs", 2) == from && callarg("updateV2TransactionProofs", 3) == to && result1 == callres("updateV2TransactionProofs", 1)
 //
 // reorgTo: only apply/revert steps move the tip; the single Flush comes after the last step;
 // success with at least one apply ends at the requested index; it is entered only when the
@@ -532,3 +571,71 @@ package chain
 //@   ensures db.db == old(db.db) && db.n == old(db.n)
 //@ func (*DBStore).shouldFlush
 //@   assigns nothing
+//
+// ---------------------------------------------------------------------------
+// C13: assembling and rebasing v2 transaction sets
+//
+//@ extern (*types.V2Transaction).SiacoinOutputID pure
+//@ extern (*types.V2Transaction).SiafundOutputID pure
+//@ extern (*types.V2Transaction).V2FileContractID pure
+//@ extern (types.SiafundOutputID).V2ClaimOutputID pure
+//
+// Every position recorded in the parent map is a position in the v2 pool.
+//@ func (*Manager).computeV2ParentMap props C13
+//@   nopanic
+//@   assigns nothing
+//@   requires m != nil
+//@   loop "range m.txpool.v2txns"
+//@     invariant m == old(m)
+//@     invariant [range] forall id types.Hash256 :: { id in parentMap } id in parentMap ==> 0 <= parentMap[id] && parentMap[id] <= rangeindex
+//@   loop "range txn.SiacoinOutputs"
+//@     invariant [range] forall id types.Hash256 :: { id in parentMap } id in parentMap ==> 0 <= parentMap[id] && parentMap[id] <= index
+//@   loop "range txn.SiafundInputs"
+//@     invariant [range] forall id types.Hash256 :: { id in parentMap } id in parentMap ==> 0 <= parentMap[id] && parentMap[id] <= index
+//@   loop "range txn.SiafundOutputs"
+//@     invariant [range] forall id types.Hash256 :: { id in parentMap } id in parentMap ==> 0 <= parentMap[id] && parentMap[id] <= index
+//@   loop "range txn.FileContracts"
+//@     invariant [range] forall id types.Hash256 :: { id in parentMap } id in parentMap ==> 0 <= parentMap[id] && parentMap[id] <= index
+//@   ensures [range] result != nil && (forall id types.Hash256 :: { id in result } id in result ==> 0 <= result[id] && result[id] < len(m.txpool.v2txns))
+//
+// V2TransactionSet: the set handed to the rebase is the pooled ancestors of txn in pool order
+// (strictly increasing pool positions, so parents come before their children whatever the order
+// in which the inputs name them), followed by txn; on success the basis is the tip.
+//@ func (*Manager).V2TransactionSet props C13
+//@   nopanic
+//@   requires m != nil && m.store != nil
+//@   loop "range txn.SiacoinInputs"
+//@     invariant [frame] frameRows(indices)
+//@     invariant [valid] forall k int :: { indices[k] } 0 <= k && k < len(indices) ==> 0 <= indices[k] && indices[k] < len(m.txpool.v2txns) && seen[indices[k]]
+//@     invariant [distinct] forall a int, b int :: { indices[a], indices[b] } 0 <= a && a < b && b < len(indices) ==> indices[a] != indices[b]
+//@   loop "range txn.SiafundInputs"
+//@     invariant [frame] frameRows(indices)
+//@     invariant [valid] forall k int :: { indices[k] } 0 <= k && k < len(indices) ==> 0 <= indices[k] && indices[k] < len(m.txpool.v2txns) && seen[indices[k]]
+//@     invariant [distinct] forall a int, b int :: { indices[a], indices[b] } 0 <= a && a < b && b < len(indices) ==> indices[a] != indices[b]
+//@   loop "range txn.FileContractRevisions"
+//@     invariant [frame] frameRows(indices)
+//@     invariant [valid] forall k int :: { indices[k] } 0 <= k && k < len(indices) ==> 0 <= indices[k] && indices[k] < len(m.txpool.v2txns) && seen[indices[k]]
+//@     invariant [distinct] forall a int, b int :: { indices[a], indices[b] } 0 <= a && a < b && b < len(indices) ==> indices[a] != indices[b]
+//@   loop "range txn.FileContractResolutions"
+//@     invariant [frame] frameRows(indices)
+//@     invariant [valid] forall k int :: { indices[k] } 0 <= k && k < len(indices) ==> 0 <= indices[k] && indices[k] < len(m.txpool.v2txns) && seen[indices[k]]
+//@     invariant [distinct] forall a int, b int :: { indices[a], indices[b] } 0 <= a && a < b && b < len(indices) ==> indices[a] != indices[b]
+//@   loop "for i < len(indices)"
+//@     invariant [frame] frameRows(indices)
+//@     invariant [index] 0 <= i
+//@     invariant [valid] forall k int :: { indices[k] } 0 <= k && k < len(indices) ==> 0 <= indices[k] && indices[k] < len(m.txpool.v2txns) && seen[indices[k]]
+//@     invariant [distinct] forall a int, b int :: { indices[a], indices[b] } 0 <= a && a < b && b < len(indices) ==> indices[a] != indices[b]
+//@   loop "range indices"
+//@     invariant [frame] frameRows(parents)
+//@     invariant [apart] !sameArray(parents, m.txpool.v2txns) && m == old(m)
+//@     invariant [valid] forall k int :: { indices[k] } 0 <= k && k < len(indices) ==> 0 <= indices[k] && indices[k] < len(m.txpool.v2txns)
+//@     invariant [ascending] forall a int, b int :: { indices[a], indices[b] } 0 <= a && a < b && b < len(indices) ==> indices[a] < indices[b]
+//@     invariant [count] len(parents) == rangeindex + 1
+//@     invariant [same] forall k int :: { parents[k] } 0 <= k && k < len(parents) ==> parents[k].ID() == m.txpool.v2txns[indices[k]].ID() && isCopy(parents[k])
+//@   ensures [basis] result2 == nil ==> result0 == m.tipState.Index
+//@   ensures [error] result2 != nil ==> len(result1) == 0
+//@   ensures [last] called("updateV2TransactionProofs") && len(callarg("updateV2TransactionProofs", 1)) >= 1 && callarg("updateV2TransactionProofs", 1)[len(callarg("updateV2TransactionProofs", 1)) - 1].ID() == txn.ID()
+//@   ensures [order] forall a int, b int :: { callarg("updateV2TransactionProofs", 1)[a], callarg("updateV2TransactionProofs", 1)[b] } 0 <= a && a < b && b < len(callarg("updateV2TransactionProofs", 1)) - 1 ==>
+//@        m.txpool.indices[callarg("updateV2TransactionProofs", 1)[a].ID()] < m.txpool.indices[callarg("updateV2TransactionProofs", 1)[b].ID()]
+//@   ensures [parents-pooled] forall a int :: { callarg("updateV2TransactionProofs", 1)[a] } 0 <= a && a < len(callarg("updateV2TransactionProofs", 1)) - 1 ==>
+//@        (callarg("updateV2TransactionProofs", 1)[a].ID() in m.txpool.indices) && isCopy(callarg("updateV2TransactionProofs", 1)[a])
